@@ -455,6 +455,23 @@ func (in *Interp) symFloatCmp(op token.Token, x symFloat, y value) value {
 	return in.fromTerm(t, types.Bool)
 }
 
+// symFloatEq: equality of exact rationals (see symFloat for the assumption).
+func (in *Interp) symFloatEq(x symFloat, y value) value {
+	switch y := y.(type) {
+	case symFloat:
+		if x.div == y.div {
+			return in.fromTerm(in.ts.Eq(x.num, y.num), types.Bool)
+		}
+		unsupported("equality of symbolic floats with different denominators")
+	case float64:
+		if y == float64(int64(y)) && y < 1e15 && y > -1e15 {
+			return in.fromTerm(in.ts.Eq(x.num, in.ts.Const(64, uint64(int64(y)*x.div))), types.Bool)
+		}
+	}
+	unsupported("equality of a symbolic float with %v", y)
+	return nil
+}
+
 func kindSignedVal(v value) bool {
 	switch v.(type) {
 	case int, int8, int16, int32, int64:
